@@ -73,7 +73,7 @@ func (c *Conn) Inject(data []byte, from net.Addr) bool {
 	case c.in <- Pkt{append([]byte(nil), data...), from}:
 	case <-c.closed:
 		return false
-	case <-time.After(5 * time.Second):
+	case <-time.After(30 * time.Second):
 		return false
 	}
 	select {
@@ -81,7 +81,7 @@ func (c *Conn) Inject(data []byte, from net.Addr) bool {
 		return true
 	case <-c.closed:
 		return false
-	case <-time.After(5 * time.Second):
+	case <-time.After(30 * time.Second):
 		return false
 	}
 }
